@@ -81,13 +81,17 @@ result: none of the evaluator's panic sites (missing cache entry for a wild-card
 variable out of range, empty restricted unit, reverse renaming) is reachable. -/
 theorem no_panic_trees (trees : List Tree) (D : DupMap)
     (hq : ∀ t ∈ trees, GoodQ C E noCtx E.G.unit0 t E.G.unit0 [])
-    (hD : ∀ key n, dupGet key D = some n → ∀ t U ds ren, GoodQ C E noCtx E.G.unit0 t U ds →
-      keyOf t (fvdOf ds) = (key, ren) → ren.length ≤ 1) :
+    (hD : ∀ key n, dupGet key D = some n → KeyWitness C E key) :
     ∃ rs, Api.evalAll E (Ops.steadyOf E E.G.unit0) E.G.unit0 trees { dups := D } = .ok rs :=
   let ⟨rs, h, _, _⟩ := C04.batch_sound hE hG (ctxOK_noCtx E) hC ctxSC_noCtx
     (fun p hp i t ht => (unitOK_unit0 E).indepFrom p hp i t (Nat.zero_le _) ht) hA trees { dups := D } hq rfl
     (C04.init_cacheOK_plain hE hG D hD)
   ⟨rs, h⟩
+
+/-- … in particular with the duplicate map `mark_duplicates` computes: `_model_check_multiple_trees_dirty` never panics -/
+theorem no_panic_treesDirty (trees : List Tree) (hq : ∀ t ∈ trees, GoodQ C E noCtx E.G.unit0 t E.G.unit0 []) :
+    ∃ rs, Api.treesDirty E E.G.unit0 trees = .ok rs :=
+  no_panic_trees hE hG hC hA trees _ hq (markDups_witness trees (C04.goodQ_roots trees hq))
 
 omit hE hG hC hA in
 /-- the error classes of the model's string entry point, for inputs that tokenize and parse: an error is
